@@ -96,10 +96,25 @@ def check(case, ev):
     n_sat = 0
     n_all = 0
     kept = []
+    # "the model" is what the user wrote: for specs over boolean leaves without pre-fixed parts the built object's
+    # arithmetic value is cross-checked against the textbook truth value of the written formula (a negation that was
+    # pushed inwards wrongly yields a built model that agrees with its own polyhedron but not with the formula)
+    _nodes = oracle.spec_nodes(spec)
+    # (integer leaves are fine - the connectives are arithmetic; only "Imply" read as a disjunction differs from the
+    #  arithmetic reading when a consequence can be negative, so such specs are left to the structural evaluator)
+    spec_boolean = all(n.get("fix") is None for n in _nodes) and all(i in oracle.spec_leaves(spec) for i in lv) \
+        and (all(n["k"] != "leaf" or n["b"][0] >= 0 for n in _nodes) or not any(n["k"] == "Imply" for n in _nodes)) \
+        and max([abs(v) for n in _nodes if n["k"] == "leaf" for v in n["b"]] + [0]) <= 10 ** 6
     for env in common.assignments(case, lv):
         n_all += 1
         memo = {}
-        if oracle.obj_value(m, env, memo=memo) != 1:
+        built_value = oracle.obj_value(m, env, memo=memo)
+        if spec_boolean and n_all <= 64:
+            want = oracle.spec_value(spec, env)
+            if built_value != want:
+                raise Violation(f"the built model evaluates to {built_value} on {env} but the written formula is {'true' if want else 'false'} there "
+                                f"(negation pushed inwards must keep the meaning)")
+        if built_value != 1:
             continue
         n_sat += 1
         full = dict(env)
@@ -114,6 +129,8 @@ def check(case, ev):
         if case.get("near_miss") and len(kept) < 6:
             kept.append((dict(env), dict(full)))
     ev.count("satisfying_assignments", n_sat)
+    if spec_boolean:
+        ev.count("written_formula_cross_checked")
     # ---- direction <= ------------------------------------------------------------------------------
     built_safe = oracle.solver_safe(m)
     safe = built_safe or written_solver_safe(spec)
